@@ -29,3 +29,5 @@ import arena_common, os_common
 A = arena_common.pairs(); O = os_common.pairs()
 PAIRS += [A["arena_schedule_purge"], A["arena_free"], O["os_purge_ex"]]
 PAIRS += [A[k] for k in ("arena_try_purge", "purge_range", "arena_purge_seq")]      # due (or forced) => every scheduled free block of the arena is purged and unscheduled
+import heap_collect_common as _hc
+PAIRS += [_hc.pair()]      # mi_heap_collect_ex: steps, force flags and order of a collection
